@@ -81,6 +81,36 @@ type summary struct {
 	MaxTasks     int
 	Samples      []any
 	WallS        float64
+	fails        []json.RawMessage
+}
+
+func newSummary() *summary {
+	return &summary{Inconclusive: map[string]int{}, Known: map[string]int{}, Reach: map[string]int{}, Faults: map[string]int{}, Classes: map[string]int{}, Outcomes: map[string]int{}}
+}
+
+func mergeSummary(tot, s *summary) {
+	tot.Runs += s.Runs
+	tot.Discards += s.Discards
+	tot.Steps += s.Steps
+	tot.Switches += s.Switches
+	tot.SimTimeNs += s.SimTimeNs
+	if s.MaxTasks > tot.MaxTasks {
+		tot.MaxTasks = s.MaxTasks
+	}
+	addMap(tot.Inconclusive, s.Inconclusive)
+	addMap(tot.Known, s.Known)
+	addMap(tot.Reach, s.Reach)
+	addMap(tot.Faults, s.Faults)
+	addMap(tot.Classes, s.Classes)
+	addMap(tot.Outcomes, s.Outcomes)
+	tot.Hashes = append(tot.Hashes, s.Hashes...)
+	if len(tot.Samples) < 4 {
+		tot.Samples = append(tot.Samples, s.Samples...)
+	}
+	if len(s.Fail) > 0 && string(s.Fail) != "null" {
+		tot.fails = append(tot.fails, s.Fail)
+	}
+	tot.fails = append(tot.fails, s.fails...)
 }
 
 type failRec struct {
@@ -179,8 +209,8 @@ func cmdCheck(args []string) {
 		os.Exit(code)
 	}
 	bin, rst := buildWorker(scratch, cfg.Variant)
-	fmt.Printf("verifsim: overlay from %s: %d packages, %d files rewritten (%d imports, %d go statements, %d channel operations, %d map ranges, %d loop yields); build %.1fs\n",
-		repoDir(), rst.Packages, rst.Files, rst.Imports, rst.GoStmts, rst.ChanOps, rst.MapRanges, rst.LoopYields, time.Since(start).Seconds())
+	fmt.Printf("verifsim: overlay from %s: %d packages, %d files rewritten (%d imports, %d go statements, %d channel operations, %d dynamic makes, %d map ranges, %d loop yields); build %.1fs\n",
+		repoDir(), rst.Packages, rst.Files, rst.Imports, rst.GoStmts, rst.ChanOps, rst.Makes, rst.MapRanges, rst.LoopYields, time.Since(start).Seconds())
 
 	// known findings of this property
 	var knownKeys []string
@@ -204,9 +234,23 @@ func cmdCheck(args []string) {
 		wg.Add(1)
 		go func(i int, procs string) {
 			defer wg.Done()
-			so, se, err := runWorker(bin, cfg.MemLimitMB, []string{"GOMAXPROCS=" + procs}, "hashes", "-prop", *prop, "-tier", *tier, "-seed", fmt.Sprint(seed), "-from", "0", "-to", fmt.Sprint(detN))
-			if err != nil {
+			var so []byte
+			for from := 0; from < detN; {
+				part, se, err := runWorker(bin, cfg.MemLimitMB, []string{"GOMAXPROCS=" + procs}, "hashes", "-prop", *prop, "-tier", *tier, "-seed", fmt.Sprint(seed), "-from", fmt.Sprint(from), "-to", fmt.Sprint(detN))
+				so = append(so, part...)
+				if err == nil {
+					break
+				}
+				if cfg.MemLimitMB > 0 && (bytes.Contains(se, []byte("out of memory")) || bytes.Contains(se, []byte("cannot allocate"))) {
+					// the run after the last reported index hit the address-space limit
+					done := bytes.Count(part, []byte("\n"))
+					so = append(so, []byte(fmt.Sprintf("%d killed-by-memory-limit\n", from+done))...)
+					from += done + 1
+					continue
+				}
 				fmt.Fprintf(os.Stderr, "determinism sample worker failed: %v\n%s\n", err, tail(se, 4000))
+				so = nil
+				break
 			}
 			detOut[i] = so
 		}(i, procs)
@@ -232,23 +276,51 @@ func cmdCheck(args []string) {
 		wg.Add(1)
 		go func(k int) {
 			defer wg.Done()
-			outFile := filepath.Join(scratch, fmt.Sprintf("sum-%d.json", k))
-			_, se, err := runWorker(bin, cfg.MemLimitMB, nil, "search", "-prop", *prop, "-tier", *tier, "-seed", fmt.Sprint(seed),
-				"-worker", fmt.Sprint(k), "-workers", fmt.Sprint(workers), "-budget", budget.String(), "-known", knownArg, "-out", outFile)
-			if err != nil {
-				crashes[k] = fmt.Sprintf("worker %d: %v\n%s", k, err, tail(se, 6000))
-				return
+			deadline := time.Now().Add(budget)
+			startIdx := k
+			acc := newSummary()
+			for attempt := 0; ; attempt++ {
+				outFile := filepath.Join(scratch, fmt.Sprintf("sum-%d-%d.json", k, attempt))
+				progFile := filepath.Join(scratch, fmt.Sprintf("prog-%d.txt", k))
+				args := []string{"search", "-prop", *prop, "-tier", *tier, "-seed", fmt.Sprint(seed),
+					"-worker", fmt.Sprint(k), "-workers", fmt.Sprint(workers), "-budget", time.Until(deadline).String(), "-known", knownArg, "-out", outFile, "-start", fmt.Sprint(startIdx)}
+				if cfg.MemLimitMB > 0 {
+					args = append(args, "-progress", progFile)
+				}
+				_, se, err := runWorker(bin, cfg.MemLimitMB, nil, args...)
+				var s summary
+				if b, rerr := os.ReadFile(outFile); rerr == nil {
+					if jerr := json.Unmarshal(b, &s); jerr != nil && err == nil {
+						crashes[k] = fmt.Sprintf("worker %d: bad summary: %v", k, jerr)
+						return
+					}
+				} else if err == nil {
+					crashes[k] = fmt.Sprintf("worker %d: %v", k, rerr)
+					return
+				}
+				mergeSummary(acc, &s)
+				if err == nil {
+					break
+				}
+				// the worker died
+				if cfg.MemLimitMB == 0 || attempt > 2000 {
+					crashes[k] = fmt.Sprintf("worker %d: %v\n%s", k, err, tail(se, 6000))
+					return
+				}
+				pb, perr := os.ReadFile(progFile)
+				died, aerr := strconv.Atoi(strings.TrimSpace(string(pb)))
+				if perr != nil || aerr != nil || !bytes.Contains(se, []byte("out of memory")) && !bytes.Contains(se, []byte("cannot allocate")) {
+					crashes[k] = fmt.Sprintf("worker %d died for a reason other than the address-space limit: %v\n%s", k, err, tail(se, 6000))
+					return
+				}
+				acc.Reach["harness.worker-killed-by-memory-limit(trial counted as aborted session)"]++
+				acc.Runs++
+				startIdx = died + workers
+				if time.Until(deadline) < time.Second {
+					break
+				}
 			}
-			b, err := os.ReadFile(outFile)
-			if err != nil {
-				crashes[k] = fmt.Sprintf("worker %d: %v", k, err)
-				return
-			}
-			var s summary
-			if err := json.Unmarshal(b, &s); err != nil {
-				crashes[k] = fmt.Sprintf("worker %d: bad summary: %v", k, err)
-				return
-			}
+			s := *acc
 			sums[k] = &s
 		}(k)
 	}
@@ -261,37 +333,21 @@ func cmdCheck(args []string) {
 	}
 
 	// aggregate
-	tot := &summary{Inconclusive: map[string]int{}, Known: map[string]int{}, Reach: map[string]int{}, Faults: map[string]int{}, Classes: map[string]int{}, Outcomes: map[string]int{}}
+	tot := newSummary()
 	hashes := map[string]bool{}
 	var fails []*failRec
 	for _, s := range sums {
-		tot.Runs += s.Runs
-		tot.Discards += s.Discards
-		tot.Steps += s.Steps
-		tot.Switches += s.Switches
-		tot.SimTimeNs += s.SimTimeNs
-		if s.MaxTasks > tot.MaxTasks {
-			tot.MaxTasks = s.MaxTasks
-		}
-		addMap(tot.Inconclusive, s.Inconclusive)
-		addMap(tot.Known, s.Known)
-		addMap(tot.Reach, s.Reach)
-		addMap(tot.Faults, s.Faults)
-		addMap(tot.Classes, s.Classes)
-		addMap(tot.Outcomes, s.Outcomes)
+		mergeSummary(tot, s)
 		for _, h := range s.Hashes {
 			hashes[h] = true
 		}
-		if len(tot.Samples) < 4 {
-			tot.Samples = append(tot.Samples, s.Samples...)
+	}
+	for _, raw := range tot.fails {
+		var fr failRec
+		if err := json.Unmarshal(raw, &fr); err != nil {
+			fatal2("bad failure record: %v", err)
 		}
-		if len(s.Fail) > 0 && string(s.Fail) != "null" {
-			var fr failRec
-			if err := json.Unmarshal(s.Fail, &fr); err != nil {
-				fatal2("bad failure record: %v", err)
-			}
-			fails = append(fails, &fr)
-		}
+		fails = append(fails, &fr)
 	}
 	if len(tot.Samples) > 4 {
 		tot.Samples = tot.Samples[:4]
